@@ -29,6 +29,7 @@ type Timer struct {
 }
 
 func NewTimerStore(db *dkv.DB, keySpace *partitioning.KeySpace, keyGroupRange partitioning.KeyGroupRange, maxCacheSize uint64) *TimerStore {
+	maxCacheSize = verifTimerCacheSize(maxCacheSize)
 	// Make partitions for each key group
 	partitions := make([]ds.QueuePartition[[]byte], keyGroupRange.Size())
 	for i, kg := range keyGroupRange.KeyGroups() {
